@@ -37,6 +37,7 @@ type Prog struct {
 	ID      string            `json:"id"`
 	Imports []string          `json:"imports,omitempty"`
 	Src     string            `json:"src"`             // declarations; must define func §P()
+	RefSrc  string            `json:"ref_src,omitempty"` // if set, the compiled side (and the gate) use this text instead of Src
 	Steps   []string          `json:"steps,omitempty"` // REPL mode: evaluated one by one by the interpreter after Src
 	RefBody string            `json:"ref_body,omitempty"` // REPL mode: body of §P for the compiled side (defaults to Steps joined)
 	Cell    string            `json:"cell,omitempty"`  // coverage cell description
@@ -59,6 +60,13 @@ const e1Prelude = "func rec(tag int, v ...interface{}) {}\nfunc pcl(r interface{
 
 func (p *Prog) plainSrc() string { return strings.ReplaceAll(p.Src, "§", "") }
 
+func (p *Prog) refSrc() string {
+	if p.RefSrc != "" {
+		return p.RefSrc
+	}
+	return p.Src
+}
+
 func (p *Prog) refBody() string {
 	if p.RefBody != "" {
 		return p.RefBody
@@ -75,7 +83,7 @@ func e1GateOne(p *Prog, imp types.Importer) {
 		fmt.Fprintf(&b, "import %q\n", i)
 	}
 	b.WriteString(e1Prelude)
-	b.WriteString(p.plainSrc())
+	b.WriteString(strings.ReplaceAll(p.refSrc(), "§", ""))
 	if len(p.Steps) > 0 {
 		b.WriteString("\nfunc P() {\n" + strings.ReplaceAll(p.refBody(), "§", "") + "\n}\n")
 	}
@@ -238,7 +246,7 @@ func refWrite(dir string, progs []*Prog, skip map[int]bool) map[string][]lineSpa
 			files = append(files, cur)
 			curOf[key] = cur
 		}
-		src := p.Src
+		src := p.refSrc()
 		if len(p.Steps) > 0 {
 			src += "\nfunc §P() {\n" + p.refBody() + "\n}\n"
 		}
@@ -625,7 +633,7 @@ func e1Run(r *fw.Run, progs []*Prog, o e1Opts) {
 		r.Eval(1)
 		ok, diff := cmpResults(ref, got)
 		if len(ref.Events) > 0 || ref.End != "ret" {
-			r.Distinct(p.Src + strings.Join(p.Steps, "\n") + fmt.Sprint(p.Mode))
+			r.Distinct(p.Src + p.RefSrc + strings.Join(p.Steps, "\n") + fmt.Sprint(p.Mode))
 		}
 		r.Count("events_compared", int64(len(ref.Events)))
 		if strings.HasPrefix(ref.End, "panic:") {
